@@ -231,6 +231,12 @@ pub fn array_state<X: Soa<C = [u8; N]>, const N: usize>(items: &[X::Own; N]) -> 
     X::from_comps((column(items, 0), column(items, 1), column(items, 2)), Some(column(items, 3)))
 }
 
+/// The struct of `Box<[u8]>` holding `items`.
+pub fn boxed_state<X: Soa<C = Box<[u8]>>, const N: usize>(items: &[X::Own; N]) -> X {
+    let mk = |j: usize| -> Box<[u8]> { Box::from(column(items, j)) };
+    X::from_comps((mk(0), mk(1), mk(2)), Some(mk(3)))
+}
+
 /// Both sides yielded nothing, or both yielded the same colour.
 pub fn same_opt<A: Item, B: Item>(a: Option<A>, b: Option<B>) {
     match (a, b) {
